@@ -839,6 +839,8 @@ func (n *IncludeNode) Render(w io.Writer, ctx *RenderContext) error {
 		}
 	}
 
+	verifYield("include.afterLoad")
+
 	// The included template always renders in a context of its own, so that nothing
 	// it sets, loops over, receives through "with" or defines (blocks, macros)
 	// changes what the including template sees afterwards
